@@ -1128,6 +1128,15 @@ def units(tier, seed):
                         masks=(31, 21, 22, 19, 1)), split=8,
                    witnesses=("returned", "shrunk"), path_timeout_s=300,
                    timeout_ms=300000))
+    # ... and over two chips whose tables differ in the sources only (one
+    # lets the packet go straight through, the other is a turn): whatever
+    # minimise_tables shares between the chips of one call must tell them
+    # apart
+    us.append(Unit("minimisation stage, twin chips (sources differ only; "
+                   "C04's harness through minimise_tables)",
+                   c04.h_twin_chips, dict(W=2, routes="AB"), split=4,
+                   witnesses=("returned", "shrunk"), path_timeout_s=300,
+                   timeout_ms=300000))
 
     # ---- the grid --------------------------------------------------------
     grid = []
